@@ -23,6 +23,7 @@ func init() {
 			{"C10.R3", "q", "flag and buffer move together", c10r3},
 			{"C10.R4", "q", "safe decompress wrappers", c10r4},
 			{"C10.R5", "q", "C bounds checks compiled in", c10r5},
+			{"C10.R6", "q", "Go decoder takes the header length from the stream", c10r6},
 		},
 	})
 }
@@ -132,6 +133,17 @@ func c10r2(c *Ctx) {
 			ok = f.CFG().Dominates(dec[0].Expr, vh[0].Expr) || vh[0].Key == "store.Payload.Getvhash"
 		}
 		c.check(ok, R, f.Key+": Decompress ≺ value hash", f.Pos(), "dominated", "the hint rebuild hashes a record's bytes without decompressing them first: rebuilt hints carry the hash of the compressed bytes")
+		if len(vh) > 0 {
+			bad := ""
+			for _, fr := range f.CallsTo("cmem.CArray.Free", "store.Payload.Free") {
+				// a Free of the payload must not precede the hash of its body within one iteration
+				c.Paths++
+				if f.CFG().ReachesWithout(fr.Expr, vh[0].Expr, f.ContainsCall("store.DataStreamReader.Next")) {
+					bad = fr.Pos()
+				}
+			}
+			c.check(bad == "", R, f.Key+": value hashed before its buffer is freed", vh[0].Pos(), "Getvhash ≺ Free", "the decompressed buffer is freed ("+bad+") before its bytes are hashed: for values decompressed into C memory the body is nil by then and the rebuilt hint carries the hash of the empty string")
+		}
 	}
 	if f := c.fn(R, "store.Payload.Getvhash"); f != nil {
 		info := f.Info()
@@ -376,4 +388,30 @@ func c10r5(c *Ctx) {
 	c.check(safe, R, "quicklz/quicklz.h: QLZ_MEMORY_SAFE defined", "quicklz/quicklz.h", "bounds checks compiled into qlz_decompress",
 		"the C decompressor is built without QLZ_MEMORY_SAFE (the #define is commented out): CDecompressSafe's size check covers only the header, so a body that lies about its matches makes qlz_decompress read/write out of bounds in C — Go's recover cannot contain that; 'returns an error instead of crashing' does not hold for arbitrary bytes")
 	c.note("quicklz.h macros: level=%s streaming=%s", macros["QLZ_COMPRESSION_LEVEL"], macros["QLZ_STREAMING_BUFFER"])
+}
+
+// c10r6: the C compressor emits a 3-byte header for short inputs, the Go one
+// always 9: every decoder-side offset must come from headerLen(source).
+func c10r6(c *Ctx) {
+	const R = "C10.R6"
+	f := c.fn(R, "quicklz.Decompress")
+	if f == nil {
+		return
+	}
+	info := f.Info()
+	uses := 0
+	ast.Inspect(f.Decl.Body, func(x ast.Node) bool {
+		if e, ok := x.(ast.Expr); ok && prog.ConstObjName(info, e) == "quicklz.DEFAULT_HEADERLEN" {
+			uses++
+		}
+		return true
+	})
+	hl := len(f.CallsTo("quicklz.headerLen"))
+	c.check(uses == 0 && hl > 0, R, f.Key+": header length read from the stream, never assumed", f.Pos(), itoa(hl)+" uses of headerLen(source), 0 of DEFAULT_HEADERLEN",
+		"the Go decompressor assumes the 9-byte default header ("+itoa(uses)+" use(s) of DEFAULT_HEADERLEN) instead of reading the header length from the stream: streams the C compressor writes with a 3-byte header (inputs < 216 bytes) decode to shifted, zero-padded bytes of the right length, so DecompressSafe reports no error")
+	for _, k := range []string{"quicklz.SizeDecompressed", "quicklz.SizeCompressed"} {
+		if g := c.fn(R, k); g != nil {
+			c.check(len(g.CallsTo("quicklz.headerLen")) > 0, R, g.Key+": dispatches on headerLen", g.Pos(), "headerLen(source)", k+" no longer distinguishes the 3-byte and the 9-byte header")
+		}
+	}
 }
